@@ -25,4 +25,27 @@ CLAIMS = {
         "note": "An empty error span at len(source) is accepted; template-string tokens are only required to nest.",
         "technique": "property-based testing with tiling / re-lex round-trip oracle (Hypothesis)",
     },
+    "C12": {
+        "level": "Generated-input search (Hypothesis): ~17k (quick) / ~300k (thorough) grammar programs over the "
+                 "built-in + Shopify tag set x 2 data sets x random layout, plus the valid CTS templates; oracle = "
+                 "three rounds of str()->parse must each parse and give the same output / error class as the original "
+                 "template for every data set; pickle.loads(pickle.dumps(t)) gives the same str() and the same "
+                 "sync and async outcomes. A failing program is localised to its smallest failing statement. "
+                 "Exploration only.",
+        "design_ref": "DESIGN.md §3 C12",
+        "note": "Behaviour is observed on the generated data sets only; a textual fixed point of str() is not "
+                "demanded (the statement speaks about behaviour).",
+        "technique": "property-based round-trip / differential testing (Hypothesis)",
+    },
+    "C10": {
+        "level": "Generated-input search (Hypothesis): ~20k programs / filter-chain probes per quick run with the data "
+                 "supplied on four channels (environment globals, template globals, loader matter, render arguments), "
+                 "deep type-exact comparison of every supplied mapping before/after render (success or error, sync "
+                 "and async); plus the complete 2^8 table of namespace-layer subsets (10,752 rendered variants) "
+                 "checked against the documented precedence order. The table is exhaustive; the rest is exploration.",
+        "design_ref": "DESIGN.md §3 C10",
+        "note": "Position of the built-in layer (now/today) is taken from the property statement and context.py, the "
+                "docs do not state it.",
+        "technique": "property-based testing with before/after deep-equality oracle + exhaustive precedence table",
+    },
 }
